@@ -284,6 +284,8 @@ def _pad_face_connections(
                         source_slice = source_slice.drop_vars(
                             [co for co in source_slice.coords]
                         )
+                        # the halo belongs to the array being padded, even if it was cut from the partner component
+                        source_slice = source_slice.rename(target_da.name)
 
                         # Here I am trying to emulate the way xarray.pad deals with dimension coordinates
                         # I will set them to nan in any case. This might change later.
